@@ -1445,3 +1445,155 @@ Section ReaderRange.
     unfold relation_ok. split; [exact Hn|]. split; [exact Hq|]. split; [exact Hvr|]. split; [exact Ha|exact Hp].
   Qed.
 End ReaderRange.
+
+(* ================================================================== H. the debversion model re-reads whatever it read *)
+Definition rev_text (r : option str) : str := match r with Some x => 45%N :: x | None => [] end.
+
+Lemma split_revision_join b u r : split_revision b = (u, r) -> u ++ rev_text r = b.
+Proof.
+  unfold split_revision. destruct (span (fun c => negb (c =? 45)%N) (rev b)) as [rsuf rpre] eqn:Es.
+  pose proof (span_app _ _ _ _ Es) as Ea.
+  assert (Hnone : (b, @None str) = (u, r) -> u ++ rev_text r = b).
+  { intros H. inversion H; subst. cbn. apply app_nil_r. }
+  destruct rpre as [|d rp]; [exact Hnone|].
+  destruct rp as [|x xs]; [exact Hnone|]. destruct rsuf as [|y ys]; [exact Hnone|].
+  destruct (forallb is_revision_char (y :: ys)); [|exact Hnone].
+  intros H. inversion H; subst. clear H Hnone.
+  pose proof (span_stop _ _ _ _ Es) as Hd. cbn in Hd. apply negb_false_iff, N.eqb_eq in Hd. subst d.
+  apply (f_equal (@rev _)) in Ea. rewrite rev_involutive, rev_app_distr in Ea.
+  cbn [rev_text]. rewrite <- Ea. cbn [rev]. rewrite <- !app_assoc. reflexivity.
+Qed.
+
+Lemma dv_print_plain u r : dv_print (mkDv None u r) = u ++ rev_text r.
+Proof. unfold dv_print. cbn [dv_epoch dv_upstream dv_revision app]. destruct r; reflexivity. Qed.
+Lemma dv_print_epoch e u r : dv_print (mkDv (Some e) u r) = dec_digits e ++ 58%N :: (u ++ rev_text r).
+Proof. unfold dv_print. cbn [dv_epoch dv_upstream dv_revision]. rewrite <- !app_assoc. destruct r; reflexivity. Qed.
+
+Lemma dv_parse_cases s v : dv_parse s = Some v ->
+  forallb is_upstream_char s = true /\
+  (dv_print v = s \/
+   exists ds e body u r, ds <> [] /\ forallb is_digit ds = true /\ s = ds ++ 58%N :: body /\ body <> []
+                         /\ parse_u32 ds = Some e /\ split_revision body = (u, r) /\ v = mkDv (Some e) u r).
+Proof.
+  unfold dv_parse. destruct (forallb is_upstream_char s) eqn:Hall; [|discriminate]. cbn [negb].
+  destruct (span is_digit s) as [ds rest] eqn:Es. intros H. split; [reflexivity|].
+  set (plain := match s with [] => None | _ :: _ => let '(u, r) := split_revision s in Some (mkDv None u r) end) in H.
+  assert (Hplain : plain = Some v -> dv_print v = s).
+  { unfold plain. destruct s as [|c0 s0] eqn:Hs; [discriminate|]. rewrite <- Hs.
+    destruct (split_revision s) as [u r] eqn:Esp. intros E. inversion E; subst v.
+    rewrite dv_print_plain. apply split_revision_join. exact Esp. }
+  destruct ds as [|d0 ds']; [left; apply Hplain; exact H|].
+  destruct rest as [|c body]; [left; apply Hplain; exact H|].
+  destruct (N.eqb_spec c 58) as [->|_]; [|left; apply Hplain; exact H].
+  destruct body as [|b0 body']; [left; apply Hplain; exact H|].
+  destruct (parse_u32 (d0 :: ds')) as [e|] eqn:Ep; [|discriminate].
+  destruct (split_revision (b0 :: body')) as [u r] eqn:Esp. inversion H; subst v.
+  right. exists (d0 :: ds'), e, (b0 :: body'), u, r.
+  split; [discriminate|]. split; [eapply span_all; exact Es|]. split; [symmetry; eapply span_app; exact Es|].
+  split; [discriminate|]. repeat split; assumption.
+Qed.
+
+Theorem dv_parse_stable s v : dv_parse s = Some v -> version_ok dv_parse dv_print v.
+Proof.
+  intros H. destruct (dv_parse_cases s v H) as [Hall [Hp|(ds & e & body & u & r & Hne & Hd & -> & Hb & Hpu & Hsp & ->)]].
+  - unfold version_ok. rewrite Hp. split; [|exact H]. unfold version_text_ok.
+    eapply forallb_impl; [|exact Hall]. intros c Hc. rewrite <- upstream_char_iff. exact Hc.
+  - pose proof (split_revision_join _ _ _ Hsp) as Ej. unfold version_ok. rewrite dv_print_epoch, Ej.
+    rewrite forallb_app in Hall. apply andb_true_iff in Hall. destruct Hall as [_ Hall].
+    assert (Hall' : forallb is_upstream_char (dec_digits e ++ 58%N :: body) = true).
+    { rewrite forallb_app. apply andb_true_iff. split; [|exact Hall].
+      eapply forallb_impl; [|apply dec_digits_digits]. intros c Hc. rewrite upstream_char_iff.
+      destruct (digit_facts c Hc) as [-> _]. reflexivity. }
+    split.
+    + unfold version_text_ok. eapply forallb_impl; [|exact Hall']. intros c Hc. rewrite <- upstream_char_iff. exact Hc.
+    + unfold dv_parse. rewrite Hall'. cbn [negb].
+      rewrite (span_exact is_digit (dec_digits e) (58%N :: body) (dec_digits_digits e) eq_refl).
+      pose proof (dec_digits_nonempty e) as Hdn. destruct (dec_digits e) as [|d0 dd] eqn:Ed; [congruence|].
+      rewrite N.eqb_refl. rewrite match_nonempty by exact Hb.
+      rewrite <- Ed. unfold parse_u32 in *. rewrite dec_digits_value.
+      destruct (dec_value ds <=? 4294967295)%N eqn:El; [|discriminate]. inversion Hpu; subst e. rewrite El.
+      rewrite Hsp. reflexivity.
+Qed.
+
+(* closed forms: for the modelled debversion, every value a reader returns is read back from its
+   own printed form — on all strings, no side condition *)
+Theorem relation_reread_dv s r : relation_from_str dv_parse s = Ok r ->
+  relation_from_str dv_parse (print_relation dv_print r) = Ok r.
+Proof.
+  intros H. apply (relation_reread dversion dv_parse dv_print s r H).
+  unfold relation_from_str in H. apply bind_ok in H. destruct H as (ts & _ & H).
+  unfold relation_from_tokens in H.
+  apply bind_ok in H. destruct H as ([name t1] & _ & H).
+  apply bind_ok in H. destruct H as ([aq t2] & _ & H).
+  apply bind_ok in H. destruct H as ([ver t3] & E3 & H).
+  apply bind_ok in H. destruct H as ([archs t4] & _ & H).
+  apply bind_ok in H. destruct H as ([profs t5] & _ & H).
+  destruct (eat_whitespace t5); [|discriminate]. inversion H; subst. cbn [r_version].
+  destruct ver as [[c v]|]; [|exact I].
+  unfold read_version in E3. destruct (eat_whitespace t2) as [|[k w] u]; [discriminate|].
+  destruct k; try discriminate.
+  destruct (read_constraint (eat_whitespace u) []) as [cs r1]. destruct (vc_of_str cs); [|discriminate].
+  destruct (read_version_string (eat_whitespace r1) []) as [[vs r2]| | |]; try discriminate.
+  destruct (dv_parse vs) as [v'|] eqn:Ev; [|discriminate].
+  destruct (eat_whitespace r2) as [|[k' w'] r3]; [discriminate|]. destruct k'; try discriminate.
+  inversion E3; subst. eapply dv_parse_stable. exact Ev.
+Qed.
+
+Section ParsedVersions.
+  Variable V : Type.
+  Variable vparse : str -> option V.
+
+  Definition version_parsed (r : relation V) : Prop :=
+    match r_version r with Some (_, v) => exists vs, vparse vs = Some v | None => True end.
+
+  Lemma relation_version_parsed s r : relation_from_str vparse s = Ok r -> version_parsed r.
+  Proof.
+    intros H. unfold relation_from_str in H. apply bind_ok in H. destruct H as (ts & _ & H).
+    unfold relation_from_tokens in H.
+    apply bind_ok in H. destruct H as ([name t1] & _ & H).
+    apply bind_ok in H. destruct H as ([aq t2] & _ & H).
+    apply bind_ok in H. destruct H as ([ver t3] & E3 & H).
+    apply bind_ok in H. destruct H as ([archs t4] & _ & H).
+    apply bind_ok in H. destruct H as ([profs t5] & _ & H).
+    destruct (eat_whitespace t5); [|discriminate]. inversion H; subst. unfold version_parsed. cbn [r_version].
+    destruct ver as [[c v]|]; [|exact I].
+    unfold read_version in E3. destruct (eat_whitespace t2) as [|[k w] u]; [discriminate|].
+    destruct k; try discriminate.
+    destruct (read_constraint (eat_whitespace u) []) as [cs r1]. destruct (vc_of_str cs); [|discriminate].
+    destruct (read_version_string (eat_whitespace r1) []) as [[vs r2]| | |]; try discriminate.
+    destruct (vparse vs) as [v'|] eqn:Ev; [|discriminate].
+    destruct (eat_whitespace r2) as [|[k' w'] r3]; [discriminate|]. destruct k'; try discriminate.
+    inversion E3; subst. exists vs. exact Ev.
+  Qed.
+
+  Lemma read_alternatives_parsed ps : forall e, read_alternatives vparse ps = Ok e -> Forall version_parsed e.
+  Proof.
+    induction ps as [|p rest IH]; intros e H; [inversion H; constructor|].
+    cbn [read_alternatives] in H. destruct (trim p) as [|c0 w] eqn:Et; [discriminate|]. rewrite <- Et in H.
+    apply bind_ok in H. destruct H as (r & Er & H). apply bind_ok in H. destruct H as (rs & Ers & H).
+    inversion H; subst. constructor; [eapply relation_version_parsed; exact Er|apply IH; exact Ers].
+  Qed.
+
+  Lemma read_entries_parsed es : forall rs, read_entries vparse es = Ok rs -> Forall (Forall version_parsed) rs.
+  Proof.
+    induction es as [|e rest IH]; intros rs H; [inversion H; constructor|].
+    cbn [read_entries] in H. destruct (trim e) as [|c0 w] eqn:Et; [apply IH; exact H|]. rewrite <- Et in H.
+    apply bind_ok in H. destruct H as (alts & Ea & H). apply bind_ok in H. destruct H as (ents & Ee & H).
+    inversion H; subst. constructor; [eapply read_alternatives_parsed; exact Ea|apply IH; exact Ee].
+  Qed.
+
+  Lemma relations_versions_parsed s rs : relations_from_str vparse s = Ok rs -> Forall (Forall version_parsed) rs.
+  Proof.
+    unfold relations_from_str. destruct s; [intros H; inversion H; constructor|apply read_entries_parsed].
+  Qed.
+End ParsedVersions.
+
+Theorem relations_reread_dv s rs : relations_from_str dv_parse s = Ok rs ->
+  relations_from_str dv_parse (print_relations dv_print rs) = Ok rs.
+Proof.
+  intros H. apply (relations_reread dversion dv_parse dv_print s rs H).
+  pose proof (relations_versions_parsed dversion dv_parse s rs H) as Hp.
+  eapply Forall_impl; [|exact Hp]. intros e He. eapply Forall_impl; [|exact He].
+  intros r Hr. unfold version_parsed in Hr. destruct (r_version r) as [[c v]|]; [|exact I].
+  destruct Hr as (vs & Ev). eapply dv_parse_stable. exact Ev.
+Qed.
